@@ -18,6 +18,7 @@ from pest.grammar.rule import ATOMIC
 from pest.grammar.rule import COMPOUND
 from pest.grammar.rule import SILENT
 from pest.grammar.rule import SILENT_ATOMIC
+from pest.grammar.rule import BuiltInRule
 
 from .expression import Expression
 from .optimizers.inliners import inline_builtin
@@ -101,6 +102,10 @@ class Optimizer:
                 continue
 
             for name, rule in rules.items():
+                if isinstance(rule, BuiltInRule):
+                    # Built-in rules are shared by all parsers.
+                    continue
+
                 if step.atomic_only and not self._is_atomic(rule, rules):
                     continue
 
